@@ -636,6 +636,10 @@ def reg_assumptions(reg, results):
         if c.note:
             out.append([f'{d["name"]}: {c.note}'])
         for q in d.get('used', []):
+            if q.startswith('<lemma>'):
+                out.append([f'TRUSTED mathematical lemma used by the evaluator in {d["name"]}: '
+                            f'{q[8:]}'])
+                continue
             cc = reg.fns.get(q)
             if cc is not None and cc.mode == 'transparent':
                 out.append([f'{q} is inlined (transparent), not abstracted by a contract'])
